@@ -130,6 +130,9 @@ def run_kernel_item(item):
             y, lo, hi = item['year_contract']
             eng.intercepts[contracts.LD_FOR_EPOCH_SECONDS] = contracts.year_contract(y, lo, hi)
             eng.resolve_bools = True
+        if item.get('ldt_window'):
+            from llsym import contracts
+            eng.intercepts[contracts.LDT_FOR_EPOCH_SECONDS] = contracts.ldt_window_contract(*item['ldt_window'])
         leaves = eng.run(item['entry'], list(item['args']))
         out['paths'] = len(leaves)
         out['steps'] = sum(l.steps for l in leaves)
